@@ -18,6 +18,8 @@ TRUSTED = pc.TRUSTED_T + [
     'interface operator tables lean/CompmechVerif/Spec/Interface.lean and their Python mirror in this plugin',
     'PanelAssembly.get_k0_conn glue (dispatch, block placement, finalize, cache) is covered by the oracle comparison on the '
     'explored assemblies only',
+    'hand model lean/CompmechVerif/Model/ConnLoop.lean of the loop nests of the 15 connection kernels (hypotheses hk11/hk12/hk22 of '
+    'get_k0_conn_psd*): compared on every run with the nests the translator reads from the sources (nest_tie; Python level, no Lean schema value)',
 ]
 ASSUMPTIONS = ['the two panels of a line connection share the interface length (the kernels use a1 resp. b1 for all three blocks)',
                'face-to-face (SB) panels share the footprint a1 x b1',
@@ -32,6 +34,25 @@ def translate(ctx):
     if not hasattr(ctx, '_conn_ir'):
         ctx._conn_ir = gen_conn.translate_all()
     return ctx._conn_ir
+
+
+def nest_tie(ir):
+    """the loop nests the translator reads from kC*.pyx vs the hand model lean/CompmechVerif/Model/ConnLoop.lean
+    (connNestDiag / connNest12, used by Props/C12 get_k0_conn_psd*): diagonal blocks = panel nest with the `row > col` skip over one
+    panel, coupling block = rectangular nest without skip; loop order i,k,j,l (ycte kinds, SB: yx = false) or j,l,i,k (xcte kinds:
+    yx = true).  Python-level tie only: the schema is not emitted as a Lean value."""
+    for kind, (kernels, _consts) in ir.items():
+        yx = kind.endswith('xcte')
+        for blk, K in kernels.items():
+            pr, pc_ = {'11': ('1', '1'), '12': ('1', '2'), '22': ('2', '2')}[blk]
+            ijkl = [('i' + pr, 'm' + pr), ('k' + pc_, 'm' + pc_), ('j' + pr, 'n' + pr), ('l' + pc_, 'n' + pc_)]
+            want_loops = [ijkl[2], ijkl[3], ijkl[0], ijkl[1]] if yx else ijkl
+            want = dict(loops=want_loops, skip=(None if blk == '12' else 'row > col'),
+                        row='row0 + num * (j%s * m%s + i%s)' % (pr, pr, pr), col='col0 + num * (l%s * m%s + k%s)' % (pc_, pc_, pc_))
+            got = dict(loops=[tuple(l) for l in K.loops], skip=K.skip, row=gen_conn._src(K.row), col=gen_conn._src(K.col))
+            if got != want:
+                return 'fkC%s%s: loop nest read from the source %r differs from the modelled nest %r (Model/ConnLoop.lean)' % (kind, blk, got, want)
+    return None
 
 
 def gen(ctx, rng):
@@ -276,6 +297,10 @@ def kt_kr_correspondence(ctx, rng):
 def correspondence(ctx):
     ir = translate(ctx)
     rng = ctx.rng
+    bad_nest = nest_tie(ir)
+    if bad_nest:
+        ctx.violation(bad_nest, dict(tie='loop nest of the connection kernels'), found_input=False)
+        return
     if kt_kr_correspondence(ctx, rng):
         return
     dist = dict(kinds={}, order={}, interior=0)
